@@ -146,6 +146,26 @@ def run_round(case):
     V = np.array([v.position for v in mesh.vertices])
     violations = []
     execs = 0
+    expected = {}
+    for end_face in (False, True):
+        centre, R = ends[1 if end_face else 0]
+        sk = shape.sketch_2 if end_face else shape.sketch_1
+        nrm = np.array(sk.normal)
+        nrm = nrm / np.linalg.norm(nrm)
+        on_plane = [i for i in range(len(V)) if abs(float((V[i] - centre) @ nrm)) < 1e-6 and np.linalg.norm(V[i] - centre) < R + 1e-6]
+        rim = {i for i in on_plane if abs(np.linalg.norm(V[i] - centre) - R) < 1e-6}
+        expected[("core", end_face)] = set(on_plane) - rim
+        expected[("shell", end_face)] = rim
+    # histories of two queries on ONE finder object (all ordered pairs): the answer must not depend on what was asked before
+    queries = list(expected)
+    for q1 in queries:
+        for q2 in queries:
+            fnd = cb.RoundSolidFinder(mesh, shape)
+            for q in (q1, q2):
+                execs += 1
+                got = {v.index for v in (fnd.find_core(q[1]) if q[0] == "core" else fnd.find_shell(q[1]))}
+                if got != expected[q]:
+                    violations.append({"clause": f"round-finder-{q[0]}", "coords": dict(case, end_face=q[1], history=[list(q1), list(q2)]), "detail": f"found {sorted(got)}, geometric {q[0]} of that face {sorted(expected[q])}"})
     for end_face in (False, True):
         centre, R = ends[1 if end_face else 0]
         sk = shape.sketch_2 if end_face else shape.sketch_1
